@@ -114,8 +114,10 @@ fn new_value(cfg: &GenCfg) -> Result<(Value, J), Violation> {
         21 => {
             let one = Value::from(1u64);
             let s = Value::from("s");
-            let v: Value = vec![("a", &one), ("b", &s)].into_iter().collect();
-            (v, J::Obj(vec![("a".into(), J::Num("1".into())), ("b".into(), J::Str("s".into()))]))
+            // a repeated key: the last value wins, as in a map built by successive inserts
+            let two = Value::from(2u64);
+            let v: Value = vec![("a", &one), ("b", &s), ("a", &two)].into_iter().collect();
+            (v, J::Obj(vec![("a".into(), J::Num("2".into())), ("b".into(), J::Str("s".into()))]))
         }
         22 => {
             let n = draw(4) as u64;
@@ -232,7 +234,7 @@ pub fn run() -> SimResult {
             trace::bump(C::dom_steps);
             let what = format!("step {}", step);
             let hi = draw(pool.len() as u32) as usize;
-            let op = draw(56);
+            let op = draw(60);
             // a value to insert, if the operation needs one
             let mut fresh = |cfg: &GenCfg| -> Result<(Value, J), Violation> {
                 counter += 1;
@@ -1167,6 +1169,133 @@ pub fn run() -> SimResult {
                     } else {
                         libcall("drop", move || drop(v))?;
                     }
+                }
+                56 | 57 | 58 => {
+                    // operations on a typed handle (Array / Object obtained by into_array / into_object or
+                    // parsed directly): they reach the value in whatever state it is in (e.g. still a parsed,
+                    // un-promoted slice), unlike as_array_mut / as_object_mut which promote first
+                    let s = pool.swap_remove(hi);
+                    let sub = draw(6);
+                    tr!("{} #{} typed-handle op {} on a {:?}", what, hi, sub, s.m.kind());
+                    trace::bump(C::dom_mutations);
+                    trace::nontrivial();
+                    let (nv, nm) = fresh(&cfg)?;
+                    let Slot { v, mut m } = s;
+                    let v2 = match &mut m {
+                        J::Arr(a) => {
+                            // sometimes re-parse as a typed Array instead of converting
+                            let mut h: Array = if chance(1, 3) {
+                                let text = gen::render(&J::Arr(a.clone()), &Style::plain());
+                                libcall("drop", move || drop(v))?;
+                                let h = libcall("from_str::<Array>", || sonic_rs::from_str::<Array>(&text))?.map_err(|e| mismatch(&what, "from_str::<Array>", e.to_string()))?;
+                                gen::scrub(text);
+                                h
+                            } else {
+                                libcall("into_array", || v.into_array())?.ok_or_else(|| mismatch(&what, "into_array", "None on an array".into()))?
+                            };
+                            match sub {
+                                0 => {
+                                    libcall("Array::clear", || h.clear())?;
+                                    a.clear();
+                                }
+                                1 => {
+                                    libcall("Array::push", || h.push(nv))?;
+                                    a.push(nm);
+                                }
+                                2 => {
+                                    let got = libcall("Array::pop", || h.pop())?;
+                                    let want = a.pop();
+                                    libcall("check", || same_opt(&got, &want, &what, "Array::pop"))??;
+                                    libcall("drop", move || drop(got))?;
+                                }
+                                3 => {
+                                    let n = draw(a.len() as u32 + 2) as usize;
+                                    libcall("Array::truncate", || h.truncate(n))?;
+                                    a.truncate(n);
+                                }
+                                4 => {
+                                    let (l, e) = libcall("Array::len", || (h.len(), h.is_empty()))?;
+                                    if l != a.len() || e != a.is_empty() {
+                                        return Err(mismatch(&what, "Array::len", format!("{} / {} but the model has {}", l, e, a.len())));
+                                    }
+                                }
+                                _ => {
+                                    libcall("Array::retain", || h.retain(|x| !x.is_null()))?;
+                                    a.retain(|x| !matches!(x, J::Null));
+                                }
+                            }
+                            let l = libcall("Array::len", || h.len())?;
+                            if l != a.len() {
+                                return Err(mismatch(&what, "Array::len", format!("{} after the operation but the model has {}", l, a.len())));
+                            }
+                            libcall("into_value", || h.into_value())?
+                        }
+                        J::Obj(o) => {
+                            let mut h: Object = if chance(1, 3) {
+                                let text = gen::render(&J::Obj(o.clone()), &Style::plain());
+                                libcall("drop", move || drop(v))?;
+                                let h = libcall("from_str::<Object>", || sonic_rs::from_str::<Object>(&text))?.map_err(|e| mismatch(&what, "from_str::<Object>", e.to_string()))?;
+                                gen::scrub(text);
+                                h
+                            } else {
+                                libcall("into_object", || v.into_object())?.ok_or_else(|| mismatch(&what, "into_object", "None on an object".into()))?
+                            };
+                            let key: String = if !o.is_empty() && chance(1, 2) { pick(o).0.clone() } else { "typed".to_string() };
+                            let pos = o.iter().position(|(k, _)| *k == key);
+                            match sub {
+                                0 => {
+                                    libcall("Object::clear", || h.clear())?;
+                                    o.clear();
+                                }
+                                1 => {
+                                    let got = libcall("Object::insert", || h.insert(&key, nv))?;
+                                    let want = match pos {
+                                        Some(i) => Some(std::mem::replace(&mut o[i].1, nm)),
+                                        None => {
+                                            o.push((key.clone(), nm));
+                                            None
+                                        }
+                                    };
+                                    libcall("check", || same_opt(&got, &want, &what, "Object::insert"))??;
+                                    libcall("drop", move || drop(got))?;
+                                }
+                                2 => {
+                                    let got = libcall("Object::remove", || h.remove(&key))?;
+                                    let want = pos.map(|i| o.remove(i).1);
+                                    libcall("check", || same_opt(&got, &want, &what, "Object::remove"))??;
+                                    libcall("drop", move || drop(got))?;
+                                }
+                                3 => {
+                                    let (l, e, c) = libcall("Object::len", || (h.len(), h.is_empty(), h.contains_key(&key)))?;
+                                    if l != o.len() || e != o.is_empty() || c != pos.is_some() {
+                                        return Err(mismatch(&what, "Object::len", format!("{} / {} / {} but the model has {} members", l, e, c, o.len())));
+                                    }
+                                }
+                                4 => {
+                                    libcall("Object::retain", || h.retain(|k, _| k != key))?;
+                                    o.retain(|(k, _)| *k != key);
+                                }
+                                _ => {
+                                    libcall("Object::entry.or_insert", || {
+                                        h.entry(&key).or_insert(nv);
+                                    })?;
+                                    if pos.is_none() {
+                                        o.push((key.clone(), nm));
+                                    }
+                                }
+                            }
+                            let l = libcall("Object::len", || h.len())?;
+                            if l != o.len() {
+                                return Err(mismatch(&what, "Object::len", format!("{} after the operation but the model has {}", l, o.len())));
+                            }
+                            libcall("into_value", || h.into_value())?
+                        }
+                        _ => {
+                            libcall("drop", move || drop(nv))?;
+                            v
+                        }
+                    };
+                    pool.push(Slot { v: v2, m });
                 }
                 _ => {
                     // as_*_mut of the wrong kind, get_mut of the wrong index kind: None, nothing changes
